@@ -106,6 +106,10 @@ pub fn run_workload(seed: u64, w: &Workload) -> Engine {
             if w.nodes_lies && rng.chance(1, 2) {
                 b.nodes_total = Some(*rng.pick(&[0u64, 1, 2, 7, 16, u64::MAX]));
             }
+            // ... or one that changes from packet to packet: the count of the first packet stands
+            if w.nodes_lies && rng.chance(1, 4) {
+                b.nodes_totals = Some(rng.pick(&[&[3u64, 2][..], &[3, 2, 2], &[4, 3, 2, 1], &[2, 2, 2], &[5, 4, 4, 4, 1], &[2, 16], &[3, 3, 2]]).to_vec());
+            }
             if w.with_enrless && rng.chance(1, 3) {
                 // slow to hand out its own record: the answer arrives after the request for it ran out
                 b.enr_answer_delay = Some(timeout * (w.retries.max(1) as u32) + Duration::from_millis(rng.below(2 * timeout.as_millis() as u64 + 1)));
